@@ -103,14 +103,14 @@ impl Z80 {
 }
 
 // ---------------------------------------------------------------- controller (R-ext shapes)
+#[derive(PartialEq, Eq, Structural)]
+pub struct KempstonJoy { pub state: u8 }
+impl Default for KempstonJoy {
+    #[verifier::external_body]
+    fn default() -> (r: Self) ensures r == (KempstonJoy { state: 0 }), { KempstonJoy { state: 0 } }
+}
 pub mod kempston {
-    use super::*;
-    #[derive(PartialEq, Eq, Structural)]
-    pub struct KempstonJoy { pub state: u8 }
-    impl Default for KempstonJoy {
-        #[verifier::external_body]
-        fn default() -> (r: Self) ensures r == (KempstonJoy { state: 0 }), { KempstonJoy { state: 0 } }
-    }
+    pub use super::KempstonJoy;
 }
 #[derive(PartialEq, Eq, Structural)]
 pub struct KempstonMouse { pub state: u8 }
@@ -203,7 +203,12 @@ pub fn decompress_zlib_stream(bytes: &[u8]) -> (r: Result<Vec<u8>>)
 { unimplemented!() }
 
 /// std functions without a vstd spec (trusted, enumerated)
+#[verifier::external_type_specification]
+#[verifier::external_body]
+pub struct ExUtf8Error(core::str::Utf8Error);
 pub assume_specification<'a>[ core::str::from_utf8 ](v: &'a [u8]) -> (r: core::result::Result<&'a str, core::str::Utf8Error>);
+pub assume_specification<T: Clone>[ <[T]>::to_vec ](s: &[T]) -> (r: Vec<T>)
+    ensures r@ == s@;
 
 // ---------------------------------------------------------------- format decode (SZX specification)
 /// ZXSTZ80REGS: AF BC DE HL AF' BC' DE' HL' IX IY SP PC I R IFF1 IFF2 IM dwCyclesStart(4) chHoldIntReqCycles chFlags wMemPtr
@@ -262,7 +267,8 @@ pub open spec fn z80r_regs(d: Seq<u8>) -> Regs {
             &&& final(emulator).cpu == old(emulator).cpu && final(emulator).settings == old(emulator).settings
         }),
 //@ at 0 //
-        assert(block_data@[0] & 0x07 <= 7) by(bit_vector);
+        let ghost b0 = block_data@[0];
+        assert(b0 & 0x07 <= 7) by(bit_vector);
 //@ end
 
 //@ fn rustzx-core/src/emulator/snapshot/szx.rs process_ay_block props C14 C15
@@ -292,7 +298,8 @@ pub open spec fn z80r_regs(d: Seq<u8>) -> Regs {
         ensures final(emulator).controller.mouse is Some == (block_data@[0] & 2 != 0),
             *final(emulator) == (Emulator { controller: ZXController { mouse: final(emulator).controller.mouse, ..old(emulator).controller }, ..*old(emulator) }),
 //@ at 0 //
-        assert(block_data@[0] == 0 ==> block_data@[0] & 2 == 0) by(bit_vector);
+        let ghost b0 = block_data@[0];
+        assert(b0 == 0 ==> b0 & 2 == 0) by(bit_vector);
 //@ end
 
 /// page number a RAMP block addresses on this machine id (16K/48K ids use 5,2,0 for the three pages)
@@ -313,7 +320,7 @@ pub open spec fn ramp_page(machine_id: u32, p: u8) -> u8 {
             &&& (page as int >= old(emulator).ram_pages() || (stored && d.len() - 3 < 16384)) ==> r is Err
             // a stored page: exactly the 16384 bytes after the 3-byte prefix become that RAM bank
             &&& (stored && (page as int) < old(emulator).ram_pages() && d.len() - 3 >= 16384) ==> r is Ok
-                    && final(emulator).controller.memory.ram_page(page) == d.subrange(3, 3 + 16384)
+                    && final(emulator).controller.memory.ram_page(page) == d.subrange(3, 16387)
             // no other bank is touched, whatever the outcome
             &&& forall|q: u8| q != page ==> final(emulator).controller.memory.ram_page(q) == old(emulator).controller.memory.ram_page(q)
             &&& r is Err ==> forall|q: u8| final(emulator).controller.memory.ram_page(q) == old(emulator).controller.memory.ram_page(q)
